@@ -139,8 +139,8 @@ def _touches_arg(g, idx):
 _VDROP_NULLCHECK = None
 
 
-def r2_vtables(ctx):
-    ctx.set_rule('C16.R2')
+def r2_vtables(ctx, rule='C16.R2'):
+    ctx.set_rule(rule)
     P = ctx.P
     def _has_vtable_literal(f):
         for body in [f] + list(f.promoted):
@@ -396,6 +396,22 @@ def r4_length(ctx):
     cb = ctx.P.fns.get('des::net::channel::ChannelMetrics::calculate_busy')
     if cb:
         ctx.check(bool(cb.calls_to('des::net::message::Message::length')), 'channel-charges-length', 'channels charge Message::length()', cb.where())
+    # a constructor for values that cannot measure themselves declares the in-memory size of the value's own type
+    c = ctx.P.fns.get(BODY + '::new_non_debugable')
+    if c is not None:
+        ctx.touch(c)
+        okl = False
+        for b, t in ret_trees(c):
+            t = peel(t)
+            if t[0] == 'agg' and 'length' in t[3]:
+                lv = peel(t[2][t[3].index('length')])
+                if lv[0] == 'call' and lv[1] == 'std::mem::size_of':
+                    site = [s_ for s_ in c.calls() if s_.name == lv[1] and s_.b == lv[3]]
+                    okl = bool(site) and site[0].targs[:1] == ['T']
+                elif lv[0] == 'call' and lv[1] == 'std::mem::size_of_val' and lv[2]:
+                    site = [s_ for s_ in c.calls() if s_.name == lv[1] and s_.b == lv[3]]
+                    okl = bool(site) and site[0].targs[:1] == ['T'] and peel(lv[2][0])[0] == 'arg'
+        ctx.check(okl, 'declared-length:new_non_debugable', 'Body::new_non_debugable declares size_of::<T>() of the stored value type (not of a pointer to it)', c.where())
     # constructors that take a MessageBody measure with byte_len
     for k in (BODY + '::new', BODY + '::new_non_clonable'):
         c = ctx.P.fns.get(k)
@@ -534,6 +550,10 @@ def r7_set_content_and_clone(ctx):
 
 
 def run(ctx):
+    # (R8) the declared length is what channels charge for, undiminished: transmission time = length*8/bitrate from the unscaled
+    # integers (shared with C07.R7 - a narrowing of the bit count there makes a large declared length cheaper than declared)
+    from .C07 import r7_busy_formula
+    r7_busy_formula(ctx, rule='C16.R8')
     r7_set_content_and_clone(ctx)
     r1_guarded_reinterpretation(ctx)
     r2_vtables(ctx)
